@@ -1,3 +1,4 @@
 import ClvmModel.Basic
 import ClvmModel.Varint
+import ClvmModel.Tree
 import ClvmModel.Proto.Varint
